@@ -14,9 +14,9 @@ Theorem C02_utf8_step_is_table : forall s b, s < 9 -> b < 256 -> WsRecv.u_step s
 Proof. exact u_step_table. Qed.
 Print Assumptions C02_utf8_step_is_table.
 
-(* one validate() call (= one frame-payload chunk) from any state other than REJECT: verdict, ends-on-code-point
+(* one validate() call (= one frame-payload chunk) from any state, REJECT included: verdict, ends-on-code-point
    flag and the state carried to the next chunk are exactly those of the table-driven validator, for every chunk *)
-Theorem C02_utf8_validate_is_real : forall s idx bs, s < 9 -> s <> 1 -> Utf8.bytes_ok bs ->
+Theorem C02_utf8_validate_is_real : forall s idx bs, s < 9 -> Utf8.bytes_ok bs ->
   WsRecv.u_validate s bs =
     (let '(pv, (rv, re, _, _)) := py_validate dfa_py {| py_state := s; py_index := idx |} bs in
      (rv, re, py_state pv)).
